@@ -2,5 +2,5 @@
 # tools/evalmut.sh <seeded-id> <property> [seed]: runs the property's quick check against /repo + seeded patch (in a scratch worktree)
 id=$1; prop=$2; seed=${3:-1}
 out=/tmp/seeded/$id/eval-$prop-seed$seed.txt
-VERIF_SEED=$seed timeout 2400 /verif/tools/withmut /tmp/seeded/$id/patch.diff /verif/check $prop quick > $out 2>&1
+VERIF_SEED=$seed timeout 2400 /verif/tools/withmut /verif/seeded/$id/patch.diff /verif/check $prop quick > $out 2>&1
 echo "$id $prop seed=$seed -> $(grep -c '^VIOLATION' $out) violation line(s), $(tail -1 $out)"
